@@ -112,6 +112,10 @@ def main():
                 except OSError:
                     pass
         json.dump(res, open(os.path.join(sd, "result.json"), "w"), indent=1)
+        hp = os.path.join(sd, "history.json")
+        hist = json.load(open(hp)) if os.path.exists(hp) else []
+        hist.append({k: res.get(k) for k in ("when", "tier", "checks", "demo_ok")})
+        json.dump(hist, open(hp, "w"), indent=1)
         print(json.dumps(res, indent=1))
 
 
